@@ -51,6 +51,8 @@ impl RecorderOnceCell {
                 crate::verif::point("cell.set.after_write", 0);
                 // Mark the recorder as initialized, which will make it visible to readers.
                 self.state.store(INITIALIZED, Ordering::Release);
+                #[cfg(metrics_verif)]
+                crate::verif::point("cell.set.after_publish", 0);
                 Ok(())
             }
             _ => Err(SetRecorderError(recorder)),
